@@ -142,6 +142,24 @@ def scheme_case(spec, res):
                     continue
                 break
         res.ev(npairs, nontrivial=npairs, transitions=0)
+    # the published table is a property of the configured scheme, not of what has been sent: a FRESH modulator (never reset) carries data -
+    # every label in one call, then label by label, no reset in between - and the table is read again after every call
+    if lab is not None and len(lab) == M:
+        try:
+            mod2, _ = MC.build(spec)
+            seq = [list(l) for l in lab]
+            calls = [[x for l in seq for x in l]] + [(l + l if MC.KIND[scheme] == "offset" else l) for l in (seq if M <= 64 else seq[:8] + seq[-8:])]
+            for ci, bits_ in enumerate(calls):
+                mod2(torch.tensor([bits_], dtype=torch.float32))
+                pts_after, lab_after = MC.table(mod2)
+                res.ev(len(bits_) // b, nontrivial=1, transitions=1)
+                if pts_after is None or len(pts_after) != M or any(abs(a - c) > 1e-6 * scale for a, c in zip(pts_after, pts)) or (lab_after is not None and list(lab_after) != list(lab)):
+                    i = next((i for i in range(min(M, len(pts_after or []))) if abs(pts_after[i] - pts[i]) > 1e-6 * scale), None)
+                    v("table-stable", f"after modulating data ({ci + 1} calls on a fresh modulator) the published constellation differs from the one published at construction"
+                      + (f": point {i} was {pts[i]:.4f}, now {pts_after[i]:.4f}" if i is not None else ""))
+                    break
+        except Exception as e:  # noqa: BLE001
+            v("raises", f"modulating all labels in sequence: {type(e).__name__}: {str(e)[:160]}")
     res.sample({"scheme": scheme, "cfg": cfg, "points": M, "energy": round(energy, 6), "gray_requested": bool(gray)})
 
 
